@@ -52,13 +52,49 @@ def normalise(I: Interp, operand: Str) -> List[Tuple[str, str]]:
     def thunk(I: Interp) -> Value:
         return normalise_one(I, operand)
     out = set()
-    for path in I.explore(thunk):
+    try:
+        paths = I.explore(thunk)
+    except AnalysisError:
+        # OperandsParser does not take a list of operand strings (any more): the operand is put on an instruction line and the
+        # line parser, the one entry every listing goes through, is asked instead
+        return _normalise_via_line(I, operand)
+    for path in paths:
         if path.kind == "return":
             v = path.value
             out.add(("return", v.render() if isinstance(v, Str) else repr(v)))
         else:
             out.add(("raise", path.exc.type_name))
     return sorted(out)
+
+
+def _normalise_via_line(I: Interp, operand: Str) -> List[Tuple[str, str]]:
+    ad, mn = H("ADDR0", "hex"), H("MN0", "mn")
+    line = Str((Lit("  "), ad, Lit(":\t48 89 e5             \t"), mn, Lit("    ")) + tuple(operand.atoms))
+    prefix = "<ADDR0>::<MN0>,"
+    out = set()
+    for kind, val in parse_line(I, line):
+        if kind == "instruction" and val.startswith(prefix):
+            out.add(("return", val[len(prefix):]))
+        elif kind == "raise":
+            out.add(("raise", val))
+        else:
+            out.add(("return", f"?{kind}:{val}"))
+    return sorted(out)
+
+
+def decorated_operand_rule(ctx, I: Interp, rule: str) -> int:
+    """EVEX-decorated memory operands (`{1to8}`, `{%k1}` glued behind the parenthesis, as objdump prints AVX-512 code) still
+    give ONE field: whatever the normaliser makes of them has no ',' in it and does not make the parser fail"""
+    A, B, C, K, D = H("A", "reg"), H("B", "reg"), H("C", "dec"), H("K", "num"), H("D", "reg")
+    n = 0
+    for label, tpl in (("k(a,b,c){d}", T(K, "(%", A, ",%", B, ",", C, "){", D, "}")), ("(a,b,c){%d}", T("(%", A, ",%", B, ",", C, "){%", D, "}")),
+                       ("k(a){d}", T(K, "(%", A, "){", D, "}")), ("(a,b){d}", T("(%", A, ",%", B, "){", D, "}"))):
+        outs = normalise(I, tpl)
+        n += 1
+        ok = bool(outs) and all(k == "return" and "," not in v for k, v in outs)
+        ctx.check(ok, rule, f"OperandsParser.parse (one operand)[{label}: {tpl.render()}]", f"gives {outs}"[:200],
+                  "a decorated memory operand reaches the stream as one comma-free field")
+    return n
 
 
 def operand_list_shapes() -> List[Tuple[str, Str, List[str]]]:
@@ -131,6 +167,13 @@ def instruction_lines() -> List[Tuple[str, Str, str]]:
         ("(bad)", T("  ", AD, ":\t", "ff                   ", "\t(bad)"), "<ADDR>::bad,"),
         ("data16 prefix, no operands", T("  ", AD, ":\t", "66 0f 05             ", "\tdata16 ", MN), "<ADDR>::<MN>,"),
         ("data16 prefix, with operands", T("  ", AD, ":\t", BYTES[2], "\tdata16 ", MN, "    ", K, "(%", A, "),%", R), "<ADDR>::<MN>,[%<A>+<K>],%<R>"),
+        ("direct call whose <symbol> is a demangled name with ', ' and '::' in it",
+         T("  ", AD, ":\t", BYTES[3], "\tcall   ", TG, " <", SY, "<", H("SY2", "sym"), ", ", H("SY3", "sym"), ">::", H("SY4", "sym"), "() const>"),
+         "<ADDR>::call,<TGT>"),
+        ("negative displacement -0xk(a)", T("  ", AD, ":\t", BYTES[2], "\t", MN, "    -0x", H("NK", "hex"), "(%", A, "),%", R),
+         "<ADDR>::<MN>,[%<A>+-0x<NK>],%<R>"),
+        ("negative displacement -0xk(a,b,c)", T("  ", AD, ":\t", BYTES[2], "\t", MN, "    %", R, ",-0x", H("NK", "hex"), "(%", A, ",%", B, ",", C, ")"),
+         "<ADDR>::<MN>,%<R>,[%<A>+%<B>*<C>+-0x<NK>]"),
     ]
     return out
 
